@@ -1,0 +1,64 @@
+//! Verification hooks (feature `verif`, off by default): thin entry points and recorders
+//! used by the external /verif harness. Nothing here changes the behaviour of the crate.
+use std::borrow::Cow;
+use std::collections::BTreeMap;
+
+use parking_lot::Mutex;
+use tokio::sync::watch;
+use tokio_stream::wrappers::WatchStream;
+
+pub use crate::node::NodeMembership;
+pub use crate::nodes_selector::{start_node_selector, NodeCycler, NodeSelectorHandle};
+use crate::{ClusterStatistics, MembershipChange, NodeId, Nodes, RpcNetwork};
+
+/// Public wrapper for `NodeSelectorHandle::set_nodes`.
+pub async fn set_nodes(
+    handle: &NodeSelectorHandle,
+    data_centers: BTreeMap<Cow<'static, str>, Nodes>,
+) {
+    handle.set_nodes(data_centers).await
+}
+
+/// Runs `watch_membership_changes` over a caller supplied stream of membership snapshots.
+pub async fn run_membership_watcher(
+    self_node_id: NodeId,
+    node_selector: NodeSelectorHandle,
+    changes: WatchStream<NodeMembership>,
+    membership_changes_tx: watch::Sender<MembershipChange>,
+) {
+    crate::watch_membership_changes(
+        self_node_id,
+        RpcNetwork::default(),
+        node_selector,
+        ClusterStatistics::default(),
+        changes,
+        membership_changes_tx,
+    )
+    .await
+}
+
+static CHOSEN_DCS: Mutex<Vec<Vec<String>>> = Mutex::new(Vec::new());
+
+/// Records the data centres picked (in order) by one `select_n_nodes` call.
+pub(crate) fn record_chosen_dcs(dcs: Vec<String>) {
+    CHOSEN_DCS.lock().push(dcs);
+}
+
+/// Takes the recorded picks since the last call.
+pub fn take_chosen_dcs() -> Vec<Vec<String>> {
+    std::mem::take(&mut *CHOSEN_DCS.lock())
+}
+
+/// One event processed by the clock actor: `(kind, input, clock after, reply)`.
+/// `kind` is 0 for `Get` (input unused) and 1 for `Register(input)`.
+pub type ClockLogEntry = (u8, u64, u64, u64);
+
+static CLOCK_LOG: Mutex<Vec<ClockLogEntry>> = Mutex::new(Vec::new());
+
+pub(crate) fn record_clock_event(entry: ClockLogEntry) {
+    CLOCK_LOG.lock().push(entry);
+}
+
+pub fn take_clock_log() -> Vec<ClockLogEntry> {
+    std::mem::take(&mut *CLOCK_LOG.lock())
+}
